@@ -6,7 +6,7 @@ import OwlModel.Driver.Ops2
 namespace Owl.Drv
 open Owl
 
-def opBB (_args : List String) (_impl : String) : String × String := ("-", "-")
-def opConv (_ty : String) (_impl : String) : String × String := ("-", "-")
+def opBB (_args : List String) (_impl : String) : String × String := ("~", "-")
+def opConv (_ty : String) (_impl : String) : String × String := ("~", "-")
 
 end Owl.Drv
